@@ -74,7 +74,7 @@ func attrCls(s string, good string) string {
 	switch s {
 	case "absent":
 		return "absent"
-	case "novalue":
+	case "novalue", "<nil>":
 		return "novalue"
 	case good:
 		return "good"
